@@ -248,6 +248,15 @@ def check_squash(rnd, stats):
         V.append(dict(clause="scale_unsquash_not_identity", y=float(ys[j]), back=float(back2[j])))
     if not onp.array_equal(onp.asarray(cl.scale(jnp.asarray(a))), a):
         V.append(dict(clause="clip_variant_scale_not_identity"))
+    # integer-typed bounds (a Box given as ints): actions are still real-valued
+    for lo_i, hi_i in ((jnp.array([-2, 0]), jnp.array([2, 5])), (onp.array([-3, 1]), onp.array([4, 2]))):
+        for squash_ in (True, False):
+            si = SquashState(low=jnp.asarray(lo_i), high=jnp.asarray(hi_i), squash=squash_)
+            ai = jnp.asarray(lo_i, jnp.float32) + jnp.array([0.37, 0.61], jnp.float32) * (jnp.asarray(hi_i, jnp.float32) - jnp.asarray(lo_i, jnp.float32))
+            back_i = onp.asarray(si.unsquash(si.scale(ai)), float)
+            stats["integer_bounds_checked"] += 1
+            if not onp.allclose(back_i, onp.asarray(ai, float), atol=1e-4):
+                V.append(dict(clause="integer_typed_bounds_truncate_actions", squash=squash_, a=onp.asarray(ai).tolist(), back=back_i.tolist(), low=onp.asarray(lo_i).tolist(), high=onp.asarray(hi_i).tolist()))
     return V
 
 
